@@ -296,6 +296,7 @@ fn eval_inner(c: &Case, obs: &mut Obs) -> Verdict {
                             drain: 997,
                             age_c: 0,
                             age_s: 0,
+                            second: None,
                         };
                         match c02::eval(&sc) {
                             Verdict::Pass(_) => {}
@@ -385,6 +386,7 @@ fn eval_inner(c: &Case, obs: &mut Obs) -> Verdict {
                         drain: 1499,
                         age_c: 0,
                         age_s: 0,
+                        second: None,
                     };
                     match c02::eval(&sc) {
                         Verdict::Pass(_) => {}
